@@ -141,6 +141,9 @@ fn probes() -> Vec<[R; 3]> {
         [(0, 1), (1, 1), (0, 1)],
         [(0, 1), (0, 1), (1, 1)],
         [(-1, 2), (3, 1), (-2, 1)],
+        // long vectors (far points)
+        [(g0[0].0 << 12, g0[0].1), (g0[1].0 << 12, g0[1].1), (g0[2].0 << 12, g0[2].1)],
+        [(g1[0].0 << 20, g1[0].1), (g1[1].0 << 20, g1[1].1), (g1[2].0 << 20, g1[2].1)],
     ]
 }
 
